@@ -723,12 +723,11 @@ impl Packet {
             }
         }
 
-        let mut buf_length = 4 + self.payload.len() + self.token.len();
+        let mut buf_length = 4 + self.token.len() + options_bytes.len();
         if self.header.code != MessageClass::Empty && !self.payload.is_empty()
         {
-            buf_length += 1;
+            buf_length += 1 + self.payload.len();
         }
-        buf_length += options_bytes.len();
 
         if limit.is_some() && buf_length > limit.unwrap() {
             return Err(MessageError::InvalidPacketLength);
